@@ -881,18 +881,26 @@ class Shell:
             print("Call stack (last call at bottom)")
             for call_address, return_address in vm.expected_returns:
                 fname = self.debugger.find_label(call_address)
-                floc = self.debugger.instruction_number_to_location(
-                    call_address, append_label=False
-                )
-                rloc = self.debugger.instruction_number_to_location(
-                    return_address - 1, append_label=False
-                )
+                floc = self.location_or_number(call_address)
+                rloc = self.location_or_number(return_address - 1)
                 if fname is not None:
                     print("  {} ({}, called from {})".format(fname, floc, rloc))
                 else:
                     print("  {} (called from {})".format(floc, rloc))
         else:
             print("The call stack is empty.")
+
+    def location_or_number(self, ino: int) -> str:
+        """
+        Return the source location of the instruction number, or the number itself if
+        it lies outside the program.
+        """
+        if 0 <= ino < len(self.debugger.program.code):
+            return self.debugger.instruction_number_to_location(
+                ino, append_label=False
+            )
+        else:
+            return "instruction {}".format(ino)
 
     def info_symbols(self) -> None:
         constants = []
@@ -1029,14 +1037,13 @@ class Shell:
             loc = False
 
         if loc:
-            try:
+            if 0 <= v < len(self.debugger.program.code):
                 label = self.debugger.instruction_number_to_location(
                     v, append_label=False
                 )
-            except IndexError:
-                return format_int(v, spec=spec)
-            else:
                 return format_int(v, spec=spec) + " [" + label + "]"
+            else:
+                return format_int(v, spec=spec)
         else:
             return format_int(v, spec=spec)
 
